@@ -160,7 +160,7 @@ var dstGaps = [][6]int{
 	{2018, 11, 4, 0, 0, 0}, {2017, 10, 15, 0, 30, 59}, // America/Sao_Paulo (midnight: the date alone falls into the gap)
 	{2011, 12, 30, 0, 0, 0}, {2011, 12, 30, 12, 0, 0}, // Pacific/Apia
 	{2023, 3, 26, 2, 30, 0}, // Europe/Berlin
-	{2023, 4, 28, 0, 0, 0}, // Africa/Cairo
+	{2023, 4, 28, 0, 0, 0},  // Africa/Cairo
 	{2023, 10, 1, 2, 15, 0}, // Australia/Lord_Howe (half-hour shift)
 }
 
